@@ -74,6 +74,9 @@ type UnitContract struct {
 	Func     string
 	Region   string // "" for whole function
 	From, To string // anchors (statement text prefixes)
+	Within   string // optional: the anchors are looked for only inside the statement this anchor matches
+	FromExcl bool   // region starts AFTER the statement anchored by From (header keyword `after` / `between`)
+	ToExcl   bool   // region ends BEFORE the statement anchored by To (header keyword `before` / `between … and`)
 	Requires []*Clause
 	Ensures  []*Clause
 	ExitEnsures []*Clause // must hold at every exit (return/break/continue) of a region, too
@@ -239,7 +242,7 @@ func parseSpecExpr(text string) (ast.Expr, error) {
 }
 
 var macroHead = regexp.MustCompile(`^define\s+([A-Za-z_][A-Za-z0-9_]*)\(([^)]*)\)\s*=\s*(.*)$`)
-var regionHead = regexp.MustCompile(`^region\s+(\S+)\s+from\s+"((?:[^"\\]|\\.)*)"\s+to\s+"((?:[^"\\]|\\.)*)"\s*$`)
+var regionHead = regexp.MustCompile(`^region\s+(\S+)\s+(from|between|after)\s+"((?:[^"\\]|\\.)*)"\s+(to|and|before)\s+"((?:[^"\\]|\\.)*)"(?:\s+within\s+"((?:[^"\\]|\\.)*)")?\s*$`)
 
 func LoadContracts(dir string) (*ContractSet, error) {
 	cs := &ContractSet{ByID: map[string]*UnitContract{}, Global: map[string]*Macro{}}
@@ -330,10 +333,13 @@ func (cs *ContractSet) parseFile(path, pkgdir string) error {
 			if i < 0 {
 				return fail(l, "region id must be Func#name")
 			}
-			from, _ := strconv.Unquote(`"` + m[2] + `"`)
-			to, _ := strconv.Unquote(`"` + m[3] + `"`)
+			from, _ := strconv.Unquote(`"` + m[3] + `"`)
+			to, _ := strconv.Unquote(`"` + m[5] + `"`)
 			cur = newUnit(l, id[:i], id[i+1:])
 			cur.From, cur.To = from, to
+			cur.Within, _ = strconv.Unquote(`"` + m[6] + `"`)
+			cur.FromExcl = m[2] != "from"
+			cur.ToExcl = m[4] != "to"
 			curLoop = nil
 		case strings.HasPrefix(t, "loop "):
 			if cur == nil {
